@@ -11,8 +11,8 @@ FIELDS = ["str", "val", "raw_user", "user", "raw_password", "password", "raw_pat
 
 
 def run(out, sc, tier, seed):
-    run_quoter_level(out, sc, tier, seed, "C06", unq=True)
-    n = 10000 if tier == "quick" else 250000
+    run_quoter_level(out, sc, tier, seed, "C06", unq=True, bounds=({"charcore": 4} if tier == "thorough" else None))
+    n = 10000 if tier == "quick" else 80000
     run_progs(out, sc, "C06", {"gen": "progs", "n": n, "seed": seed, "surrogate_p": 0.03, "fields": FIELDS,
                                "encoded_p": 0.15}, "progs")
     run_progs(out, sc, "C06", {"gen": "c06raw", "maxtok": 2 if tier == "quick" else 3, "fields": FIELDS, "seed": seed}, "raw",
